@@ -134,7 +134,15 @@ impl super::Connector for DirectConnector {
                         .unwrap_or(local)
                 };
 
-                let server = udp_socket(local, Some(remote), false).context("setup socket")?;
+                let server = if self.bind.is_none() && remote.ip().is_unspecified() {
+                    // the destinations come with the datagrams and may be of either family: a dual-stack
+                    // socket reaches both (where IPv6 is not available, the family of the request)
+                    let any: SocketAddr = SocketAddr::new(std::net::Ipv6Addr::UNSPECIFIED.into(), local.port());
+                    udp_socket(any, Some(remote), false).or_else(|_| udp_socket(local, Some(remote), false))
+                } else {
+                    udp_socket(local, Some(remote), false)
+                }
+                .context("setup socket")?;
                 let local = server.local_addr().context("local_addr")?;
                 set_fwmark(&server, self.fwmark)?;
                 ctx.write()
